@@ -1,5 +1,6 @@
 import OdxVerif.Props.C02
 import OdxVerif.Proofs.FlatReencode
+import OdxVerif.Proofs.FlattenDec
 /-! # C03 — decoding a PDU and re-encoding the result reproduces the PDU
     Proved tier: atomic `A_INT32` objects — every canonical raw bit pattern is interpreted as a value the
     encoder accepts and maps back to the same pattern (two's complement: all patterns; one's complement
@@ -35,6 +36,56 @@ theorem C03_reencode_flat (os : List Obj) (pdu : Bytes) (hok : ∀ o ∈ os, o.o
     (encAll (reenc 0 pdu os 0) s0).msg = pdu ∧ (encAll (reenc 0 pdu os 0) s0).warn = s0.warn :=
   reencode_flat os pdu hok hall hdisj hfit hcanon hdesc s0 hm hu hc ho
 
+/-- **C03, nested-structure tier, at the API level of the model.** A request/response built from VALUE and
+    CODED-CONST parameters over the five leaf kinds and arbitrarily nested structures, and a PDU such that
+    * every leaf lies inside the PDU, every raw pattern read is canonical (no negative zero) and every CODED-CONST
+      leaf carries its constant (`Trees.reads`),
+    * the leaves — at the absolute positions of the flattening `Trees.flat` — are pairwise disjoint and together
+      claim every bit of the PDU ("all bits described by value-carrying parameters").
+    Then strict `Request.decode` returns a value tree `V`, and strict `Request.encode` of exactly that `V` returns
+    the PDU byte for byte, without an overlap warning. -/
+theorem C03_reencode_struct (ts : List Tree) (hneed : Trees.need ts + 2 ≤ modelFuel) (hn : Trees.namesOk ts)
+    (pdu : Bytes) (hall : AllBytes pdu) (hreads : Trees.reads pdu ts 0 0)
+    (hdisj : PairDisj 0 ((Trees.flat ts 0 0).1.map (·.1)) 0)
+    (hdesc : ∀ a, a < 8 * pdu.length → ClaimedBy 0 ((Trees.flat ts 0 0).1.map (·.1)) 0 a) (trig : Option Bytes) :
+    ∃ (V : List (String × PVal)) (cursor : Nat),
+      decodeMessage none (Trees.toParams ts) pdu true = .ok (.dict V, cursor) ∧
+      encodeMessage none (Trees.toParams ts) (.dict V) trig true = .ok (pdu, 0) := by
+  -- the re-decoded description
+  let ts' := (Trees.redecode pdu ts 0 0).1
+  have hok' : Trees.okAll ts' := Trees.redecode_ok pdu ts 0 0 hreads
+  have hn' : Trees.namesOk ts' := (Trees.redecode_namesOk pdu ts hn 0 0).1
+  have hneed' : Trees.need ts' + 2 ≤ modelFuel := by
+    show Trees.need (Trees.redecode pdu ts 0 0).1 + 2 ≤ modelFuel
+    rw [Trees.redecode_need]; exact hneed
+  have hpar : Trees.toParams ts' = Trees.toParams ts := Trees.redecode_toParams pdu ts 0 0
+  obtain ⟨hv, _, _, _, hfit⟩ := Trees.dec_redecode ts { msg := pdu } hreads
+  obtain ⟨hdec_eq, hfits_eq⟩ := Trees.redecode_dec pdu ts 0 0
+  refine ⟨(Trees.pair ts').val, ((Trees.pair ts).dec { msg := pdu }).2.cursorByte, ?_, ?_⟩
+  · -- decode: the model's decoder is the pure decoder, which returns the value tree of ts'
+    have hfit' : (Trees.pair ts').fits { msg := pdu } := by
+      show (Trees.pair (Trees.redecode pdu ts 0 0).1).fits { msg := pdu }
+      rw [hfits_eq]; exact hfit
+    have hdec := decodeMessage_tree ts' hneed' hok' pdu hfit'
+    rw [hpar] at hdec
+    rw [hdec]
+    show Except.ok (PVal.dict ((Trees.pair (Trees.redecode pdu ts 0 0).1).dec { msg := pdu }).1,
+      ((Trees.pair (Trees.redecode pdu ts 0 0).1).dec { msg := pdu }).2.cursorByte) = _
+    rw [hdec_eq, hv]
+  · -- encode: the flat encoder on the flattening of ts', which is the flattened description paired with the decoded values
+    obtain ⟨s0, hm, hu, hw, hc, ho, hrun⟩ := encodeMessage_tree_flat ts' hneed' hok' hn' trig
+    rw [hpar] at hrun
+    rw [hrun]
+    obtain ⟨hflat, hfits, hcanon⟩ := Trees.flat_redecode pdu ts 0 0 hreads 0
+    have hflat' : (Trees.flat ts' 0 0).1 = reenc 0 pdu ((Trees.flat ts 0 0).1.map (·.1)) 0 := hflat
+    have hobjs : ∀ o ∈ (Trees.flat ts 0 0).1.map (·.1), o.ok := by
+      intro o ho'
+      have : o ∈ (Trees.flat ts' 0 0).1.map (·.1) := by rw [hflat', reenc_fst]; exact ho'
+      obtain ⟨ov, hov, rfl⟩ := List.mem_map.mp this
+      exact (Trees.flat_ok ts' hok' 0 0 ov hov).1
+    obtain ⟨hmsg, hwarn⟩ := reencode_flat ((Trees.flat ts 0 0).1.map (·.1)) pdu hobjs hall hdisj hfits hcanon hdesc s0 hm hu hc ho
+    rw [hflat', hmsg, hwarn, hw]
+
 /-- **Overlap warning ⇒ static overlap** (C02's "warning exactly when two objects claim the same bit", one
     direction, flat tier): a description whose objects are pairwise disjoint never produces an overlap warning. -/
 theorem C03_no_warning_without_overlap (ovs : List (Obj × IVal)) (s : EncState)
@@ -42,5 +93,72 @@ theorem C03_no_warning_without_overlap (ovs : List (Obj × IVal)) (s : EncState)
     (encAll ovs s).warn = s.warn := encAll_nowarn ovs s hpd hfree
 
 example : canonRaw (some .onec) 8 0xFE := by simp [canonRaw]
+
+end OdxVerif.Codec
+
+namespace OdxVerif.Codec
+open OdxVerif.Bits OdxVerif.OdxM
+
+/-! non-vacuity of `C03_reencode_struct`: `22 05` against [CODED-CONST sid = 0x22, STRUCTURE s {x : 8 bit}] -/
+def exReTrees : List Tree :=
+  [.const ⟨"sid", none, none, none, true, 8, .uint32⟩ (.int 0x22),
+   .struct "s" none [.int ⟨"x", none, none, none, true, 8, .uint32⟩ (.int 0)]]
+
+example : Trees.reads [0x22, 0x05] exReTrees 0 0 := by
+  simp [exReTrees, Trees.reads, Tree.reads, Tree.redecode, Obj.ok, Obj.encOk, Obj.sizeOk, Obj.inRange, Obj.pos, Obj.k, Obj.bp,
+    Obj.canon, Obj.rawAt, Obj.raw, posOf, readNum, ord, ofBytesBE]
+
+example : (Trees.flat exReTrees 0 0).1.map (fun ov => (ov.1.name, ov.1.bytePos, ov.1.bl)) = [("sid", some 0, 8), ("x", some 1, 8)] := by
+  decide
+
+theorem claims_byte (o : Obj) (p a : Nat) (hbl : o.bl = 8) (hbp : o.bitPos = none) :
+    o.claims p a ↔ a / 8 = p := by
+  have hk : o.k = 1 := by simp [Obj.k, Obj.bp, hbl, hbp]
+  have hb : o.bp = 0 := by simp [Obj.bp, hbp]
+  unfold Obj.claims
+  rw [hk, hb, hbl]
+  constructor
+  · rintro ⟨j, hj, rfl⟩
+    unfold absBit
+    cases o.hl <;> simp <;> omega
+  · intro h
+    refine ⟨a % 8, Nat.mod_lt _ (by decide), ?_⟩
+    unfold absBit
+    cases o.hl <;> simp <;> omega
+
+example : PairDisj 0 ((Trees.flat exReTrees 0 0).1.map (·.1)) 0 ∧
+    ∀ a, a < 8 * ([0x22, 0x05] : Bytes).length → ClaimedBy 0 ((Trees.flat exReTrees 0 0).1.map (·.1)) 0 a := by
+  have hF : (Trees.flat exReTrees 0 0).1.map (·.1) =
+      [(⟨"sid", none, none, none, true, 8, .uint32⟩ : Obj).at 0, (⟨"x", none, none, none, true, 8, .uint32⟩ : Obj).at 1] := by
+    simp [exReTrees, Trees.flat, Tree.flat, posOf, Obj.pos, Obj.k, Obj.bp]
+  rw [hF]
+  constructor
+  · refine ⟨?_, ?_, trivial⟩
+    · intro pre o' post heq a ⟨h1, h2⟩
+      -- the only later object is x at byte 1
+      cases pre with
+      | nil =>
+        simp only [List.nil_append, List.cons.injEq] at heq
+        obtain ⟨rfl, _⟩ := heq
+        rw [claims_byte _ _ _ rfl rfl] at h1 h2
+        simp [Obj.at, Obj.pos, cursorAfter] at h1 h2
+        omega
+      | cons p pre =>
+        simp only [List.cons_append, List.cons.injEq] at heq
+        have := heq.2
+        cases pre <;> simp at this
+    · intro pre o' post heq
+      cases pre <;> simp at heq
+  · intro a ha
+    simp only [List.length_cons, List.length_nil] at ha
+    simp only [ClaimedBy]
+    by_cases h : a / 8 = 0
+    · left
+      rw [claims_byte _ _ _ rfl rfl]
+      simp [Obj.at, Obj.pos, h]
+    · right; left
+      rw [claims_byte _ _ _ rfl rfl]
+      simp [Obj.at, Obj.pos]
+      omega
 
 end OdxVerif.Codec
